@@ -198,6 +198,19 @@ def py_model(ops, pos):
 
 
 def replayer(v):
+    if v.get('kind') == 'lemma' and v.get('level') == 'body':
+        # confirmation: library commands written in duckscript whose body fails (with and without an inner output variable); the error
+        # must be reported (output false, last error set with the line of the calling instruction) and be fatal under exit_on_error
+        for call in ('r = sha256sum /nonexistent/file/x', 'r = sha512sum /nonexistent/file/x', 'r = array_join nohandle ,', 'r = set_from_array nohandle'):
+            out = H.replay(dict(mode='sdk', script='noop\n%s\ne = get_last_error\nl = get_last_error_line' % call))
+            if out.get('panic'): return (True, 'native panic')
+            vs = out.get('vars', {})
+            if not out.get('ok') or vs.get('r') != 'false' or not vs.get('e') or vs.get('l') != '2':
+                v['native'] = out; return (True, '%s: error inside the script-implemented command not reported: %r' % (call, vs or out.get('error')))
+            out2 = H.replay(dict(mode='sdk', script='exit_on_error true\n%s\nz = set 1' % call))
+            if out2.get('ok') or out2['error'].get('line') != 2:
+                v['native'] = out2; return (True, '%s under exit_on_error: %r' % (call, out2.get('error') or 'survived'))
+        return (False, 'errors inside script-implemented commands are reported natively')
     if v.get('kind') == 'lemma' and 'ops' not in v:
         # a runner-level lemma: first the error-protocol panel (failing instruction in the main text, in the main file, in an
         # included file, after instructions of another file; exit_on_error on), then the panel of scripted runs of C03
@@ -256,9 +269,64 @@ def main(tier, seed):
     from .c03 import job_runner_step, job_on_error_lemma
     chk.job(job_runner_step, 'step/runner reports errors', n=5, pid=PID, only=('error handler', 'Runtime error carrying', 'failing error handler', 'output variable set'))
     chk.job(job_on_error_lemma, 'step/runner invokes on_error', pid=PID)
+    chk.job(job_eval_instructions_lemma, 'step/body loop of script-implemented commands', n=4 if tier == 'quick' else 8)
     chk.bounds = dict(step_lemmas='each operation once from an arbitrary protocol state (last error absent or arbitrary message <= 3 chars / line 0..99 / source <= 3 chars, exit_on_error absent / true / false); state afterwards compared field by field', program_length='<= %d' % k, op_kind_sequences=len(seqs), messages=MSGS, flags=FLAGS)
     chk.assumptions = ['failing library command = harness command returning Error(message) (plus the real trigger_error); on_error, exit_on_error, get_last_error* are the real run functions',
-                       'top-level programs only: errors inside functions/loops/script-implemented commands/included files are not covered here',
+                       'whole programs are top-level only; errors inside script-implemented library commands are covered by the body-loop lemma (utils::eval::eval_instructions) + C19 (the wrapper returns the body result) + the runner step lemma; errors inside function bodies / loops run through the same runner loop (step lemma); included files: C14',
                        'assert_error and set_error not covered', 'op kinds case-split (fixed + seeded random sequences); outputs, lines, sources, messages and flag spellings symbolic']
     results = chk.run()
     return chk.finish(results, 'every obligation is a solver query over all output variables, source positions, messages and exit_on_error spellings of a program shape')
+
+
+# ---------------------------------------------------------------------- errors inside script-implemented library commands
+def job_eval_instructions_lemma(ctx, jr, n):
+    """The body loop of script-implemented commands and of condition-position calls (utils::eval::eval_instructions): one iteration
+    from an arbitrary position with run_instruction as an arbitrary result. An inner Error / Crash / Exit ends the body at once and
+    is the result handed back (AliasCommand::run returns it unchanged - C19 - and the runner then reports it - runner step lemma)."""
+    from mirsym import induct
+    from .c03 import Program, CR as CR3, GV, CONT, GOTO, ERROR, CRASH, EXIT, opt_choose, choose, OUTS as OUTS3, VALUES
+    from .c12 import map_eq
+    jr.bounds = dict(body_lines='0..%d (symbolic)' % n, position='any', inner_result='arbitrary', variables='x, y arbitrary',
+                     claim='one-iteration lemma; with C19 (wrapper returns the body result) and the runner step lemma: errors inside script-implemented commands are reported like any other')
+    e = ctx.engine(unwind=3); t0 = time.time()
+    prog = Program(e, n); nlen = e.fresh_int('body.len', 0, n)
+    instrs = V(nlen, prog.value().it)
+    st = State(True, {})
+    V0 = M([(e.fresh_bool('before.%s.present' % k), mk_str(k), H.sym_str(e, 'before.%s' % k, 2)) for k in OUTS3])
+    VA = M([(e.fresh_bool('after.%s.present' % k), mk_str(k), H.sym_str(e, 'after.%s' % k, 2)) for k in OUTS3])
+    L = e.fresh_int('L', 0, n + 2)
+    rk = e.fresh_int('r.kind', 0, 4); rmsg = H.sym_str(e, 'r.msg', 3); rout = e.fresh_int('r.out', 0, len(VALUES))
+    bylabel = e.fresh_bool('r.bylabel'); gline = e.fresh_int('r.line', 0, n + 3)
+    out_o = opt_choose(rout, VALUES)
+    result = E(CR3, rk, {CONT: [out_o], GOTO: [out_o, E(GV, zite(bylabel, 0, 1), {0: [mk_str(':a')], 1: [gline]})], ERROR: [rmsg], CRASH: [rmsg], EXIT: [out_o]})
+    calls = []
+
+    def h_cmd(eng, st1, a, callee):
+        calls.append((st1.g, a[4], a[5])); eng.store(st1, a[1], VA)
+        return T([result, none()])
+    e.hooks['runner::run_instruction'] = h_cmd; e.hooks['duckscript::runner::run_instruction'] = h_cmd
+    st.m[(0, 'commands')] = T([M([]), M([])], 'types::command::Commands'); st.m[(0, 'state')] = M([]); st.m[(0, 'vars')] = V0
+    st.m[(0, 'env')] = T([Opaque('out'), Opaque('err'), e.alloc(st, False)], 'types::env::Env')
+    fr = induct.capture(e, 'sdk', 'utils::eval::eval_instructions', [PV(instrs), P(0, 'commands'), P(0, 'state'), P(0, 'vars'), P(0, 'env'), L], st)
+    fr.require(['line', 'flow_output', 'flow_result'], also=('*variables',))      # *variables: arbitrary before (V0) and after the command (VA)
+    FO = E(OPTION, zite(e.fresh_bool('flow_output.present'), 1, 0), {0: [], 1: [H.sym_str(e, 'flow_output', 2)]})
+    st1 = fr.state(True, flow_output=FO)
+    exits, back = fr.step(st1)
+    goes_on = back.g if back is not None else False
+    kind = sel(prog.kind, L, 0); is_script = zand(L < nlen, zeq(kind, 1))
+    stop = zand(is_script, zor(zeq(rk, ERROR), zeq(rk, CRASH), zeq(rk, EXIT)))
+    obs = [(stop, znot(goes_on), 'an inner error / crash / exit ends the body at once')]
+    for g_, ins, ln in calls: obs.append((g_, zand(is_script, zeq(ln, L)), 'only script instructions of the body are run, with their index'))
+    obs.append((is_script, zor(*[g_ for g_, _, _ in calls]) if calls else False, 'every script instruction of the body is run'))
+    for rs, rv in fr.returns(exits):
+        fres, fout = rv.f
+        obs.append((zand(rs.g, stop), zand(zeq(fres.d, 1), deep_eq(fres.p[1][0], result)) if 1 in fres.p else False, 'the inner error / crash / exit is the result of the body, unchanged'))
+        obs.append((zand(rs.g, stop), map_eq(e, rs, e.read(rs, ('mem', 0, 'vars', [])), VA), 'nothing is stored for the failed instruction'))
+        obs.append((zand(rs.g, L >= nlen), zand(zeq(fres.d, 0), deep_eq(fout, FO)), 'past the last line: the body ends without a result of its own, with the last output'))
+    for g, cnd, msg in obs: e.obligations.append(Obligation(g, cnd, 'C10 body-loop lemma: %s' % msg, 'assert', 'oracle'))
+
+    def extract(m, o=None): return dict(kind='lemma', level='body', L=solve.model_int(m, L), result_kind=solve.model_int(m, rk))
+    jr.symex_time += time.time() - t0
+    res = discharge_known(e, jr, PID, {}, extract)
+    witness(jr, e, 'body-loop lemma: an inner error ends the body', zand(stop, zeq(rk, ERROR)), extract)
+    H.finish_job(jr, e, res)
